@@ -64,6 +64,11 @@ def run(ck: Checker):
                        f'add_pairwise_if_then_else{kw or ""}: r_i = ite(if_i, then_i, else_i) in order', kwargs=kw)
     ck.floor('C09.GADGET', 9)
 
+    ck.rule('C09.NUM', 'subtraction with comparison (unequal widths in both directions), division with remainder (widths 4-5) and integer square root (widths 6-9; more in the thorough tier) instantiated as they stand, without contracts, on a host circuit with gates of its own, both endiannesses, every operand value')
+    from .. import num_folds
+    num_folds.fold_sub_div_sqrt(ck, 'C09.NUM')
+    ck.floor('C09.NUM', 3)
+
     # OUT-GUARD
     n_guard = 0
     for m, q, fn in R.gen_functions(repo, MODULES):
